@@ -22,9 +22,9 @@ from .core import generate, Encoding, Discharger, PROGRAMS, write_replay
 from .engine_g import CaseOut
 from .universe import Universe, Unsupported, KIND
 
-LEAVES = [{'c': 'int', 'v': 1}, {'c': 'str', 'v': 'a'}, {'c': 'bool', 'v': 1}, {'c': 'float', 'v': '3/2'},
-          {'c': 'NoneType'}, {'c': 'bytes', 'v': 'a'}, {'c': 'UA'}, {'c': 'UC'}, {'c': 'EColor', 'm': 0},
-          {'c': 'ENum', 'm': 0}, {'c': 'type', 'denotes': 'int'}, {'c': 'function'}, {'c': 'complex', 'v': '1'},
+LEAVES = [{'c': 'int', 'v': 1}, {'c': 'str', 'v': 'a'}, {'c': 'type', 'denotes': 'str'}, {'c': 'type', 'denotes': 'int'},
+          {'c': 'NoneType'}, {'c': 'UA'}, {'c': 'float', 'v': '3/2'}, {'c': 'bool', 'v': 1}, {'c': 'bytes', 'v': 'a'}, {'c': 'UC'}, {'c': 'EColor', 'm': 0},
+          {'c': 'ENum', 'm': 0}, {'c': 'function'}, {'c': 'complex', 'v': '1'},
           {'c': 'object'}, {'c': 'UImpl'}]
 SEQS = ['list', 'tuple', 'deque', 'USeq', 'UMutSeq', 'UGenList', 'range']
 COLLS = ['set', 'frozenset', 'USet', 'UColl', 'dict_keys', 'dict_values', 'UIterable', 'UReversible']
@@ -82,7 +82,7 @@ def _distinct(kids):
 
 
 def skeletons(tier, seed):
-    leaves = LEAVES if tier != 'quick' else LEAVES[:11]
+    leaves = LEAVES if tier != 'quick' else LEAVES[:12]
     sets = [[]]
     sets += [[l] for l in leaves]
     pairs = list(itertools.combinations(leaves[:7], 2))
